@@ -15,16 +15,16 @@ PROPERTY = 'C03'
 RULE = ("stateless exploration of call histories on 9 networks (N1 filter+stiffness+sparse LinSolve, N2 block rhs, N3 "
         "CG(SOR) with initial-guess memory, N4 sparse EigenSolve, N5 OverhangFilter+KS, N6 SystemOfEquations, N7 "
         "StaticCondensation, N8 complex dynamic stiffness + LinSolve + ComplexNorm, N9 bare dense LinSolve whose matrix "
-        "table holds different matrix classes, N10 the same with definite -> indefinite -> definite symmetric matrices); every protocol-respecting sequence over {I0,I1,I2,R,S0,S1,B,Z} up to the "
+        "table holds different matrix classes, N10 the same with definite -> indefinite -> definite symmetric matrices, N11 CG with geometric multigrid); every protocol-respecting sequence over {I0,I1,I2,R,S0,S1,B,Z} up to the "
         "depth bound, each followed by clean cycles for all (k,j), j in {output 0, output 1, both outputs} (the first fresh after the sequence, rotating); on every "
         "intermediate state: after Z no sensitivity is left, B without a seed changes nothing, R,R equals R. "
         "Non-trivial = the sequence contains at least one R; distinct by (network, sequence, first clean cycle)")
 ASSUMPTIONS = ["documented memories (Scaling first value, damped AggScaling, writer counters) are not part of the networks",
-               "N3 (iterative solver) is compared with SOLVER tolerance 1e-6 relative, all others ALG 1e-9",
+               "N3 and N11 (iterative solvers) are compared with SOLVER tolerance 1e-6 relative, all others ALG 1e-9",
                "pymoto.core_objects.get_init_str (diagnostic only) replaced by a constant"]
 
 OPS = ['I0', 'I1', 'I2', 'R', 'S0', 'S1', 'B', 'Z']
-NETS = ['N1', 'N2', 'N3', 'N4', 'N5', 'N6', 'N7', 'N8', 'N9', 'N10']
+NETS = ['N1', 'N2', 'N3', 'N4', 'N5', 'N6', 'N7', 'N8', 'N9', 'N10', 'N11']
 
 
 def _xs(nel, t):
@@ -118,6 +118,23 @@ def build(name, t=0):
         outs = [u, u]
         seeds = [np.array([1.0, 0.0, 0.0]), np.array([0.3, -0.7, 1.1])]
         x = A
+    elif name == 'N11':
+        # CG with a geometric multigrid preconditioner (interpolation set up once, coarse solver chosen at the first update)
+        dom = pym.DomainDefinition(4, 2)
+        nel = dom.nel
+        bc = np.sort(np.concatenate([dom.get_nodenumber(0, np.arange(3)) * 2, dom.get_nodenumber(0, np.arange(3)) * 2 + 1]))
+        f = np.zeros(dom.nnodes * 2)
+        f[dom.get_nodenumber(4, 1) * 2 + 1] = -1.0
+        xs = _xs(nel, t)
+        x = pym.Signal('x', xs[0].copy())
+        sources, tables = [x], [[v] for v in xs]
+        net = pym.Network()
+        K = net.append(pym.AssembleStiffness(x, domain=dom, bc=bc))
+        rhs = pym.Signal('f', f.copy())
+        u = net.append(pym.LinSolve([K, rhs], solver=ps.CG(preconditioner=ps.GeometricMultigrid(dom), tol=1e-11)))
+        c = net.append(pym.EinSum([u, rhs], expression='i,i->'))
+        v = net.append(pym.EinSum([u, u], expression='i,i->'))
+        outs = [c, v]
     elif name == 'N10':
         # dense symmetric matrices with positive diagonal: definite -> indefinite -> definite (Cholesky with LDL fallback)
         P1 = np.array([[4., 1, 0.5], [1, 3, 0.2], [0.5, 0.2, 5]])
@@ -241,7 +258,7 @@ def class_change(name, seq, cycles):
 
 def run_history(name, t, seq, cycles):
     """returns (ops, violation tuple or None)"""
-    tol = 1e-6 if name == 'N3' else 1e-9
+    tol = 1e-6 if name in ('N3', 'N11') else 1e-9
     w = build(name, t)
     net = w['net']
     seeded = False
@@ -302,7 +319,7 @@ def run_history(name, t, seq, cycles):
                     return nops, ('state_differs_from_fresh', {'net': name, 'input_class_changed': changed},
                                   {'seq': seq, 'cycles': cycles[:c + 1], 'signal': w['sigs'][idx].tag, 'rel': d})
             for idx, (a, b) in enumerate(zip(gs, rgs)):
-                ok, d = close(a, b, tol * (1e3 if name == 'N3' else 1))
+                ok, d = close(a, b, tol * (1e3 if name in ('N3', 'N11') else 1))
                 if not ok:
                     return nops, ('sensitivity_differs_from_fresh', {'net': name, 'input_class_changed': changed},
                                   {'seq': seq, 'cycles': cycles[:c + 1], 'source': idx, 'rel': d})
